@@ -53,6 +53,11 @@ func (fio *FileIO) Close() error {
 	return fio.fd.Close()
 }
 
+func (fio *FileIO) Truncate(size int64) error {
+	vhook.IO("truncate", fio.fd.Name(), size, 0, nil)
+	return fio.fd.Truncate(size)
+}
+
 func (fio *FileIO) Size() (int64, error) {
 	stat, err := fio.fd.Stat()
 	if err != nil {
